@@ -25,14 +25,14 @@ ASSUMPTIONS = [
     "contact: generated gaps satisfy |x_c - x_t| >= 1e-3 on the active axes (away from the open/closed switch)",
 ]
 
-SOLID_MATS = ["NeoHooke", "NeoHookeCompressible", "tt:yeoh", "tt:ogden", "jax:mooney_rivlin", "OgdenRoxburgh(NeoHooke)", "tt:ogden_roxburgh(neo_hooke)",
+SOLID_MATS = ["user:nonsymmetric-tangent", "NeoHooke", "NeoHookeCompressible", "tt:yeoh", "tt:ogden", "jax:mooney_rivlin", "OgdenRoxburgh(NeoHooke)", "tt:ogden_roxburgh(neo_hooke)",
               "tt:finite_strain_viscoelastic", "LinearElasticLargeStrain", "tt:saint_venant_kirchhoff"]
 K3 = ["hexahedron", "tetra", "hexahedron20", "tetra10", "hexahedron27"]
 K2 = ["quad", "triangle", "quad8", "triangle6", "quad9"]
 KB3 = ["hexahedron", "hexahedron20", "hexahedron27"]
 KB2 = ["quad", "quad8", "quad9"]
 
-ITEMS = ["SolidBody/3d", "SolidBody/planestrain", "SolidBody/axi", "SolidBody/mixed-threefield", "SolidBody/mixed-nearlyinc",
+ITEMS = ["SolidBody/3d", "SolidBody/planestrain", "SolidBody/axi", "SolidBody/3d+nonsym", "SolidBody/planestrain+nonsym", "SolidBody/axi+nonsym", "SolidBody/mixed-threefield", "SolidBody/mixed-nearlyinc",
          "SolidBody/mixed-axi", "SolidBody/mixed-planestrain", "SolidBody/linear-elastic", "SolidBody/plasticity",
          "NearlyIncompressible/3d", "NearlyIncompressible/planestrain", "NearlyIncompressible/axi",
          "Pressure/3d", "Pressure/planestrain", "Pressure/axi", "CauchyStress/3d", "CauchyStress/planestrain",
@@ -40,6 +40,7 @@ ITEMS = ["SolidBody/3d", "SolidBody/planestrain", "SolidBody/axi", "SolidBody/mi
 
 
 def kinds_for(item):
+    item = item.replace("+nonsym", "")
     if item == "NearlyIncompressible/3d":
         return K3
     if item in ("SolidBody/3d", "SolidBody/linear-elastic", "SolidBody/plasticity", "MPC", "Contact", "PointLoad", "BodyForce",
@@ -57,13 +58,15 @@ def kinds_for(item):
 
 
 def strategy(item, tier):
+    item = item.replace("+nonsym", "")
     axi = item.endswith("axi")
     return st.fixed_dictionaries(
         {
             "mesh": st.sampled_from(kinds_for(item)).flatmap(
                 lambda k: gm.st_mesh(k, tier, max_n=(3 if gm.kind_dim(k) == 2 else 2) if "27" not in k and "20" not in k else 2, affine=not (axi or item == "Contact"),
                                      curved=True)),
-            "mat": st.sampled_from(SOLID_MATS).flatmap(lambda n: st.fixed_dictionaries({"name": st.just(n), "params": gmat.REG[n]["params"]})),
+            "mat": st.sampled_from(SOLID_MATS).flatmap(lambda n: st.fixed_dictionaries(
+                {"name": st.just(n), "params": gmat.REG[n]["params"] if n in gmat.REG else st.fixed_dictionaries({"mu": gmat.fl(0.5, 2), "beta": gmat.fl(0.1, 1)})})),
             "H": st.lists(st.floats(-0.15, 0.15).map(lambda v: round(v, 3)), min_size=9, max_size=9),
             "uamp": st.sampled_from([0.0, 0.03, 0.08]),
             "useed": st.integers(0, 2**16),
@@ -78,6 +81,24 @@ def strategy(item, tier):
             "mult": st.sampled_from([1.0, 10.0, 1e3]),
         }
     )
+
+
+def user_material(fem, mu, beta):
+    """a user-defined (non-hyperelastic) law P = mu F + beta tr(F) F: its tangent has no major symmetry"""
+    I = np.eye(3)
+
+    def stress(x, mu, beta):
+        F = x[0]
+        return [mu * F + beta * np.trace(F) * F, x[1]]
+
+    def elasticity(x, mu, beta):
+        F = x[0]
+        one = np.ones((1, 1, 1, 1) + F.shape[2:])
+        A = (mu + beta * np.trace(F)) * np.einsum("ik,jl->ijkl", I, I).reshape(3, 3, 3, 3, 1, 1) * one
+        A = A + beta * np.einsum("ij...,kl->ijkl...", F, I)
+        return [A]
+
+    return fem.Material(stress, elasticity, mu=mu, beta=beta)
 
 
 def set_state(fc, X, case, dim):
@@ -121,6 +142,13 @@ def dense(v, n):
 def check(item, case, rec):
     fem = import_felupe()
     from felupe.tools._newton import fun_items, jac_items
+
+    if item.endswith("+nonsym"):
+        # material class without a potential (tangent without major symmetry): enumerated, not left to chance
+        item = item[: -len("+nonsym")]
+        case = dict(case)
+        p = case["mat"]["params"]
+        case["mat"] = {"name": "user:nonsymmetric-tangent", "params": {"mu": 1.0 + abs(case["load"]), "beta": 0.2 + 0.3 * abs(case["pJ"][0])}}
     spec = dict(case["mesh"])
     axi = item.endswith("axi")
     if axi:
@@ -156,6 +184,9 @@ def check(item, case, rec):
             symmetric = True
         elif item == "SolidBody/plasticity":
             um = fem.LinearElasticPlasticIsotropicHardening(E=100.0, nu=0.3, sy=1.0, K=10.0)
+        elif mname == "user:nonsymmetric-tangent":
+            um = user_material(fem, mpar["mu"], mpar["beta"])
+            symmetric = False
         else:
             um = gmat.build(mname, mpar)
             symmetric = gmat.REG[mname]["hyper"] and gmat.REG[mname]["nstate"] == 0
@@ -165,7 +196,7 @@ def check(item, case, rec):
             symmetric = True
         body = fem.SolidBody(um, fc)
         set_state(fc, X, case, dim)
-        registry = item in ("SolidBody/3d", "SolidBody/planestrain", "SolidBody/axi") and not (dim == 2 and fkind == "3d")
+        registry = item in ("SolidBody/3d", "SolidBody/planestrain", "SolidBody/axi") and not (dim == 2 and fkind == "3d") and mname in gmat.REG
         ns = gmat.REG[mname]["nstate"] if registry else (28 if item == "SolidBody/plasticity" else 0)
         fun = gmat.REG[mname].get("fun") if registry else None
         if item == "SolidBody/plasticity":
